@@ -152,6 +152,15 @@ Definition spec_ok (c : tcase) : bool :=
      | None => true
      end.
 
+(** the part of the spec that does not refer to the final tables: every op answered, no request
+    panicked or hit a discarded transaction, every context read shows what was fetched *)
+Definition out_ok (o : hout) : bool := match o with HOBatch oc _ => ok_outcome oc | _ => true end.
+Definition spec_core (c : tcase) : bool :=
+  if c_conc c then N.eqb (o_conc c) 1 else
+  Nat.eqb (length (c_ops c)) (length (o_outs c))
+  && forallb out_ok (o_outs c)
+  && snapshot_ok [] (ns_events (combine (c_ops c) (o_outs c))).
+
 Definition variants : list variant :=
   [ v_current;
     {| v_alias := AliasCopy; v_ctx := CtxCopyPtr |};
